@@ -296,7 +296,12 @@ Progs ==
     \* a sub-parser that emits and THEN fails: what it emitted stays (nobody rewound), through parse and through check alike
     <<"prog", << <<"sub", 1>> >>, << <<"then", EmAny, J("b")>> >>>>,
     <<"prog", << <<"chk", 1>> >>, << <<"then", EmAny, J("b")>> >>>>,
-    <<"prog", << <<"p", "a">>, <<"chk", 1>>, <<"n">> >>, << <<"then", EmAny, <<"then", EmAny, J("!")>>>> >>>> }
+    <<"prog", << <<"p", "a">>, <<"chk", 1>>, <<"n">> >>, << <<"then", EmAny, <<"then", EmAny, J("!")>>>> >>>>,
+    \* observers: spans since a remembered position (before and after a rewind), the inspector, the context, by way of the
+    \* MaybeRef flavours of next / peek
+    <<"prog", << <<"nm">>, <<"sv">>, <<"ss">>, <<"nm">>, <<"ss">>, <<"st">>, <<"rw">>, <<"ss">>, <<"st">> >>, <<>>>>,
+    <<"prog", << <<"pm", "a">>, <<"st">>, <<"n">>, <<"st">>, <<"cx">>, <<"sub", 1>>, <<"ss">>, <<"st">> >>, << <<"ornot", J("b")>> >>>>,
+    <<"prog", << <<"sv">>, <<"sub", 1>>, <<"ss">>, <<"st">>, <<"rw">>, <<"st">>, <<"s">>, <<"ss">> >>, << <<"collect", <<"rep", J("a"), 0, Inf>>, "vec">> >>>> }
 ProgTemplates ==
   Progs \cup {<<"then", pg, RestCap>> : pg \in Progs}
   \cup {<<"or", <<"then", pg, J("!")>>, RestCap>> : pg \in Progs}
